@@ -33,12 +33,24 @@ Proof.
   - cbn [evs_of]. rewrite IH. reflexivity.
 Qed.
 
-Theorem checkout_clean st st1 s d :
-  checkout st = (st1, Some (s, d)) -> evs_of (s_evs st1) s = [].
+(* nothing is being held back on any socket *)
+Definition hold_free (l : list item) : Prop := ~ In IHold l.
+Definition no_hold (st : state) : Prop := forall s, hold_free (evs_of (s_evs st) s).
+
+Lemma classic_in_hold (l : list item) : In IHold l \/ hold_free l.
 Proof.
-  unfold checkout. destruct (s_q st) as [|[[s0 d0]|] q]; try discriminate.
-  destruct (evs_of (s_evs st) s0) eqn:He; [|discriminate].
-  intros H; inversion H; subst. cbn. exact He.
+  induction l as [|x l IH]; [right; intros H; exact H|].
+  destruct x; try (destruct IH as [H|H]; [left; right; exact H|right; intros [Hx|Hx]; [discriminate|exact (H Hx)]]).
+  left; left; reflexivity.
+Qed.
+
+Theorem checkout_clean st st1 s d :
+  no_hold st -> checkout st = (st1, Some (s, d)) -> evs_of (s_evs st1) s = [].
+Proof.
+  intros Hn. unfold checkout. destruct (s_q st) as [|[[s0 d0]|] q]; try discriminate.
+  pose proof (Hn s0) as Hf. destruct (evs_of (s_evs st) s0) as [|[t r|t c|t| |] rest] eqn:He; try discriminate.
+  - intros H; inversion H; subst. cbn. exact He.
+  - exfalso. apply Hf. left; reflexivity.
 Qed.
 
 Lemma evs_of_closed evs s : evs_of (filter (fun kv => negb (Nat.eqb (fst kv) s)) evs) s = [].
@@ -49,11 +61,11 @@ Proof.
 Qed.
 
 Theorem pending_is_discarded st s d q x xs :
-  s_q st = Some (s, d) :: q -> evs_of (s_evs st) s = x :: xs ->
+  s_q st = Some (s, d) :: q -> evs_of (s_evs st) s = x :: xs -> x <> IHold ->
   exists st1, checkout st = (st1, None) /\ evs_of (s_evs st1) s = [] /\ s_q st1 = q.
 Proof.
-  intros Hq He. unfold checkout. rewrite Hq, He. eexists; split; [reflexivity|]. split; [|reflexivity].
-  cbn. apply evs_of_closed.
+  intros Hq He Hx. unfold checkout. rewrite Hq, He. destruct x; try congruence.
+  all: eexists; split; [reflexivity|]; split; [|reflexivity]; cbn; apply evs_of_closed.
 Qed.
 
 (* ---------- readers on a served stream deliver own bytes only ---------- *)
@@ -63,17 +75,19 @@ Lemma pull_unfold need have items :
   match items with
   | [] => ([], have, [], true)
   | IEof :: _ => ([], have, items, true)
+  | IHold :: _ => ([], have, items, true)
   | IData t c :: more =>
       let '(ch, h, it, e) := pull need (have + c) more in ((t, Nat.min c (need - have)) :: ch, h, it, e)
   | IResp t _ :: more => let '(ch, h, it, e) := pull need (have + 1) more in ((t, 1) :: ch, h, it, e)
   | IJunk t :: more => let '(ch, h, it, e) := pull need (have + 1) more in ((t, 1) :: ch, h, it, e)
   end.
-Proof. destruct items as [|[| | |] ?]; reflexivity. Qed.
+Proof. destruct items as [|[| | | |] ?]; reflexivity. Qed.
 
 (* what follows the head of a reply to request i: the rest of what was sent of its body ... *)
 Definition cont (i : nat) (r : reply) : list item :=
   if Nat.ltb (k_first r) (k_sent r) then [IData i (k_sent r - k_first r)] else [].
-Definition eof_first (rest : list item) : Prop := exists rest', rest = IEof :: rest'.
+(* the stream stops here: the peer has closed, or is holding the rest back *)
+Definition eof_first (rest : list item) : Prop := exists rest', rest = IEof :: rest' \/ rest = IHold :: rest'.
 
 Lemma pull_own i r need rest :
   k_first r <= k_sent r ->
@@ -86,19 +100,20 @@ Proof.
     replace (k_first r + (k_sent r - k_first r)) with (k_sent r) by lia.
     rewrite pull_unfold. destruct (Nat.leb_spec need (k_sent r)) as [Hle|Hgt]; cbn [fst total].
     + split; [constructor; [reflexivity|constructor]|lia].
-    + destruct Hor as [Hc|[rest' ->]]; [lia|]. cbn [fst total]. split; [constructor; [reflexivity|constructor]|lia].
+    + destruct Hor as [Hc|[rest' [-> | ->]]]; [lia| |]; cbn [fst total]; (split; [constructor; [reflexivity|constructor]|lia]).
   - rewrite pull_unfold. destruct (Nat.leb_spec need (k_first r)); cbn [fst total]; [split; [constructor|lia]|].
-    destruct Hor as [Hc|[rest' ->]]; [lia|]. cbn [fst total]. split; [constructor|lia].
+    destruct Hor as [Hc|[rest' [-> | ->]]]; [lia| |]; cbn [fst total]; (split; [constructor|lia]).
 Qed.
 
-Lemma pull_eof_own i r rest' :
+Lemma pull_eof_own i r stop rest' :
+  stop = IEof \/ stop = IHold ->
   k_first r <= k_sent r ->
-  own i (fst (pull_eof (cont i r ++ IEof :: rest'))) /\
-  k_first r + total (fst (pull_eof (cont i r ++ IEof :: rest'))) <= k_sent r.
+  own i (fst (pull_eof (cont i r ++ stop :: rest'))) /\
+  k_first r + total (fst (pull_eof (cont i r ++ stop :: rest'))) <= k_sent r.
 Proof.
-  intros Hfs. unfold cont. destruct (Nat.ltb_spec (k_first r) (k_sent r)); cbn [app pull_eof fst total].
-  - split; [constructor; [reflexivity|constructor]|lia].
-  - split; [constructor|lia].
+  intros [-> | ->] Hfs; unfold cont; destruct (Nat.ltb_spec (k_first r) (k_sent r)); cbn [app pull_eof fst total].
+  all: try (split; [constructor; [reflexivity|constructor]|lia]).
+  all: split; [constructor|lia].
 Qed.
 
 Definition served_tail (i : nat) (r : reply) (tl : list item) : Prop :=
@@ -131,9 +146,12 @@ Proof.
     destruct short; [|cbn [fst]; split; assumption].
     destruct amt; cbn [fst]; [apply take_bounded; assumption|apply nil_bounded].
   - (* FEof *)
-    destruct (Heof (or_intror eq_refl)) as [rest' ->].
-    pose proof (pull_eof_own i r rest' Hfs) as [Ho Ht].
-    destruct (pull_eof (cont i r ++ IEof :: rest')) as [ch it]; cbn [fst] in *.
+    destruct (Heof (or_intror eq_refl)) as [rest' Hst].
+    assert (Hx : exists stop, (stop = IEof \/ stop = IHold) /\ rest = stop :: rest')
+      by (destruct Hst as [-> | ->]; eexists; (split; [|reflexivity]); [left|right]; reflexivity).
+    destruct Hx as (stop & Hstop & ->).
+    pose proof (pull_eof_own i r stop rest' Hstop Hfs) as [Ho Ht].
+    destruct (pull_eof (cont i r ++ stop :: rest')) as [ch it]; cbn [fst] in *.
     split; [apply own_cons; exact Ho|cbn [total]; lia].
   - (* FChunked *)
     assert (Hor : k_n r <= k_sent r \/ eof_first rest) by (destruct (Nat.ltb_spec (k_sent r) (k_n r)); [right; apply Heof; left; assumption|left; assumption]).
@@ -186,7 +204,7 @@ Proof.
       destruct (k_n r) as [|n'] eqn:Hn; [apply nil_bounded|].
       destruct (Nat.ltb_spec 0 (k_sent r)) as [Hs1|Hs0]; cbn [app fst].
       * split; [constructor; [reflexivity|constructor]|cbn [total]; lia].
-      * assert (He : eof_first rest) by (apply Heof; left; lia). destruct He as [rest' ->]. cbn [fst]. apply nil_bounded.
+      * assert (He : eof_first rest) by (apply Heof; left; lia). destruct He as [rest' [-> | ->]]; cbn [fst]; apply nil_bounded.
 Qed.
 
 (* ---------- what the server writes ---------- *)
@@ -196,23 +214,110 @@ Proof.
   destruct (k_framing r0); unfold bodyless in *; cbn [k_status]; exact Hb.
 Qed.
 
+(* what follows the head of the reply in what the server writes *)
+Definition serve_tail (i : nat) (head : bool) (r0 : reply) : list item :=
+  let r := norm head r0 in
+  let bl := bodyless head r0 in
+  let complete := bl || Nat.eqb (k_sent r) (k_n r) in
+  (if Nat.ltb (k_first r) (k_sent r) then [IData i (k_sent r - k_first r)] else [])
+  ++ (if complete then match k_stray r with
+                       | SSepResp => [IResp (stray_tag i) stray_reply]
+                       | SSepJunk => [IJunk (stray_tag i)]
+                       | _ => []
+                       end else [])
+  ++ (if is_late r bl complete then [IHold; IResp i late_reply; IJunk i]
+      else if negb (k_keep r) || negb complete || k_eof_after r || (match k_framing r with FEof => true | _ => false end)
+      then [IEof] else []).
+
+Lemma serve_is i head r0 : k_kind r0 <> 1 -> k_kind r0 <> 2 -> serve i head r0 = IResp i (norm head r0) :: serve_tail i head r0.
+Proof. intros H1 H2. unfold serve, serve_tail. destruct (k_kind r0) as [|[|[|k]]]; try contradiction; reflexivity. Qed.
+
+(* the rest of the body is being held back *)
+Definition late_tail (i : nat) (r : reply) (tl : list item) : Prop :=
+  k_framing r = FLen /\ k_first r <= k_sent r /\ k_sent r < k_n r /\ exists more, tl = cont i r ++ IHold :: more.
+
+Lemma in_app3 (x : item) a b c : In x (a ++ b ++ c) -> In x a \/ In x b \/ In x c.
+Proof. intros H. apply in_app_or in H as [H|H]; [left; exact H|]. apply in_app_or in H as [H|H]; [right; left|right; right]; exact H. Qed.
+
+Lemma serve_tail_shape i head r0 :
+  (bodyless head r0 = false -> served_tail i (norm head r0) (serve_tail i head r0)) /\
+  (In IHold (serve_tail i head r0) -> bodyless head r0 = false /\ late_tail i (norm head r0) (serve_tail i head r0)).
+Proof.
+  unfold serve_tail. set (r := norm head r0). destruct (bodyless head r0) eqn:Hb.
+  - (* nothing of a body: no hold *)
+    split; [discriminate|]. cbn [orb]. unfold is_late. cbn [negb andb]. intros Hin. exfalso.
+    apply in_app3 in Hin as [Hin|[Hin|Hin]].
+    + destruct (Nat.ltb _ _); cbn in Hin; [destruct Hin as [Hin|[]]; discriminate|contradiction].
+    + destruct (k_stray r); cbn in Hin; try contradiction; destruct Hin as [Hin|[]]; discriminate.
+    + destruct (_ || _); cbn in Hin; [destruct Hin as [Hin|[]]; discriminate|contradiction].
+  - cbn [orb]. subst r. unfold norm. rewrite Hb.
+    destruct (k_framing r0) eqn:Hf; cbn [k_first k_sent k_n k_framing k_keep k_stray k_eof_after].
+    + (* FLen *)
+      destruct (Nat.ltb_spec (k_sent r0) (k_n r0)) as [Hlt|Hge].
+      * replace (Nat.min (k_sent r0) (k_n r0)) with (k_sent r0) by lia.
+        replace (Nat.eqb (k_sent r0) (k_n r0)) with false by (symmetry; apply Nat.eqb_neq; lia).
+        unfold is_late; cbn [negb andb app k_stray k_framing].
+        destruct (k_stray r0) eqn:Hst; cbn [app].
+        all: try (split; [intros _; unfold served_tail, cont; cbn [k_first k_sent k_n k_framing]; eexists; split; [reflexivity|];
+                          split; [lia|]; split; [lia|]; intros _; rewrite orb_true_r; cbn [orb]; eexists; left; reflexivity
+                         |rewrite orb_true_r; cbn [orb]; intros Hin; exfalso; apply in_app_or in Hin as [Hin|Hin];
+                          [destruct (Nat.ltb _ _); cbn in Hin; [destruct Hin as [Hin|[]]; discriminate|contradiction]
+                          |cbn in Hin; destruct Hin as [Hin|[]]; discriminate]]).
+        (* SLate *)
+        split.
+        -- intros _. unfold served_tail, cont; cbn [k_first k_sent k_n k_framing]. eexists; split; [reflexivity|].
+           split; [lia|]. split; [lia|]. intros _. eexists; right; reflexivity.
+        -- intros _. split; [reflexivity|]. unfold late_tail, cont; cbn [k_first k_sent k_n k_framing].
+           split; [reflexivity|]. split; [lia|]. split; [lia|]. eexists; reflexivity.
+      * replace (Nat.min (k_sent r0) (k_n r0)) with (k_n r0) by lia. rewrite Nat.eqb_refl.
+        unfold is_late; cbn [negb andb app].
+        split.
+        -- intros _. unfold served_tail, cont; cbn [k_first k_sent k_n k_framing]. eexists; split; [reflexivity|].
+           split; [lia|]. split; [lia|]. intros [Hx|Hx]; [lia|discriminate].
+        -- intros Hin. exfalso. apply in_app3 in Hin as [Hin|[Hin|Hin]].
+           ++ destruct (Nat.ltb _ _); cbn in Hin; [destruct Hin as [Hin|[]]; discriminate|contradiction].
+           ++ destruct (k_stray r0); cbn in Hin; try contradiction; destruct Hin as [Hin|[]]; discriminate.
+           ++ destruct (_ || _); cbn in Hin; [destruct Hin as [Hin|[]]; discriminate|contradiction].
+    + (* FEof *)
+      rewrite Nat.eqb_refl. unfold is_late; cbn [negb andb app k_stray k_framing]. rewrite !orb_true_r.
+      split.
+      * intros _. unfold served_tail, cont; cbn [k_first k_sent k_n k_framing]. eexists; split; [reflexivity|].
+        split; [lia|]. split; [lia|]. intros _. eexists; left; reflexivity.
+      * intros Hin. exfalso. apply in_app_or in Hin as [Hin|Hin].
+        -- destruct (Nat.ltb _ _); cbn in Hin; [destruct Hin as [Hin|[]]; discriminate|contradiction].
+        -- cbn in Hin; destruct Hin as [Hin|[]]; discriminate.
+    + (* FChunked *)
+      destruct (Nat.ltb_spec (k_sent r0) (k_n r0)) as [Hlt|Hge].
+      * replace (Nat.min (k_sent r0) (k_n r0)) with (k_sent r0) by lia.
+        replace (Nat.eqb (k_sent r0) (k_n r0)) with false by (symmetry; apply Nat.eqb_neq; lia).
+        unfold is_late; cbn [negb andb app k_stray k_framing].
+        assert (Hnl : (match (match k_stray r0 with SLate => SLate | _ => SNone end), FChunked with SLate, FLen => true | _, _ => false end) = false)
+          by (destruct (k_stray r0); reflexivity).
+        rewrite Hnl. rewrite orb_true_r; cbn [orb app].
+        split.
+        -- intros _. unfold served_tail, cont; cbn [k_first k_sent k_n k_framing]. eexists; split; [reflexivity|].
+           split; [lia|]. split; [lia|]. intros _. eexists; left; reflexivity.
+        -- intros Hin. exfalso. apply in_app_or in Hin as [Hin|Hin].
+           ++ destruct (Nat.ltb _ _); cbn in Hin; [destruct Hin as [Hin|[]]; discriminate|contradiction].
+           ++ cbn in Hin; destruct Hin as [Hin|[]]; discriminate.
+      * replace (Nat.min (k_sent r0) (k_n r0)) with (k_n r0) by lia. rewrite Nat.eqb_refl.
+        unfold is_late; cbn [negb andb app].
+        split.
+        -- intros _. unfold served_tail, cont; cbn [k_first k_sent k_n k_framing]. eexists; split; [reflexivity|].
+           split; [lia|]. split; [lia|]. intros [Hx|Hx]; [lia|discriminate].
+        -- intros Hin. exfalso. apply in_app3 in Hin as [Hin|[Hin|Hin]].
+           ++ destruct (Nat.ltb _ _); cbn in Hin; [destruct Hin as [Hin|[]]; discriminate|contradiction].
+           ++ destruct (k_stray r0); cbn in Hin; try contradiction; destruct Hin as [Hin|[]]; discriminate.
+           ++ destruct (_ || _); cbn in Hin; [destruct Hin as [Hin|[]]; discriminate|contradiction].
+Qed.
+
 Lemma serve_shape i head r0 :
   k_kind r0 <> 1 -> k_kind r0 <> 2 ->
   exists tl, serve i head r0 = IResp i (norm head r0) :: tl /\
-             (bodyless head r0 = false -> served_tail i (norm head r0) tl).
+             (bodyless head r0 = false -> served_tail i (norm head r0) tl) /\
+             (In IHold tl -> bodyless head r0 = false /\ late_tail i (norm head r0) tl).
 Proof.
-  intros H1 H2. unfold serve.
-  destruct (k_kind r0) as [|[|[|k]]] eqn:Hk; try contradiction; cbn [app].
-  all: eexists; split; [reflexivity|]; intros Hb; unfold served_tail, cont.
-  all: eexists; split; [reflexivity|].
-  all: unfold norm; rewrite Hb; cbn [orb].
-  all: destruct (k_framing r0) eqn:Hf; cbn [k_first k_sent k_n k_framing k_keep k_stray k_eof_after].
-  all: split; [lia|]; split; [lia|].
-  all: intros Hor.
-  all: try (destruct Hor as [Hlt|Hfe]; [|discriminate]).
-  all: try (destruct (Nat.eqb_spec (Nat.min (k_sent r0) (k_n r0)) (k_n r0)) as [He|He]; [lia|];
-            cbn [app negb orb]; rewrite orb_true_r; cbn [orb]; eexists; reflexivity).
-  all: try (rewrite Nat.eqb_refl; cbn [app negb orb]; eexists; reflexivity).
+  intros H1 H2. exists (serve_tail i head r0). split; [apply serve_is; assumption|apply serve_tail_shape].
 Qed.
 
 (* ---------- urlopen ---------- *)
@@ -235,16 +340,53 @@ Lemma put_script M st slot : s_script (put M st slot) = s_script st.
 Proof. unfold put. destruct (Nat.ltb _ _); [reflexivity|]. destruct slot as [[s d]|]; reflexivity. Qed.
 
 
-Lemma acquire_clean st st2 s d :
-  acquire st = (st2, s, d) -> evs_of (s_evs st2) s = [] /\ s_script st2 = s_script st.
+Lemma checkout_script st : s_script (fst (checkout st)) = s_script st.
 Proof.
-  unfold acquire. destruct (checkout st) as [st1 slot] eqn:Hco.
-  assert (Hscr1 : s_script st1 = s_script st)
-    by (unfold checkout in Hco; destruct (s_q st) as [|[[s0 d0]|] q]; [inversion Hco; reflexivity|
-        destruct (evs_of (s_evs st) s0); inversion Hco; reflexivity|inversion Hco; reflexivity]).
+  unfold checkout. destruct (s_q st) as [|[[s0 d0]|] q]; [reflexivity| |reflexivity].
+  destruct (evs_of (s_evs st) s0) as [|[| | | |] ?]; reflexivity.
+Qed.
+
+Lemma hold_free_nil : hold_free [].
+Proof. intros H; exact H. Qed.
+
+Lemma no_hold_set_q st q : no_hold st -> no_hold (set_q st q).
+Proof. intros H s. exact (H s). Qed.
+
+Lemma no_hold_close st s : no_hold st -> no_hold (close_sock st s).
+Proof.
+  intros H s'. cbn [close_sock s_evs]. destruct (Nat.eq_dec s s') as [->|Hne].
+  - rewrite evs_of_closed. apply hold_free_nil.
+  - rewrite evs_of_filter_other by exact Hne. exact (H s').
+Qed.
+
+Lemma no_hold_put M st slot : no_hold st -> no_hold (put M st slot).
+Proof.
+  intros H. unfold put. destruct (Nat.ltb _ _); [apply no_hold_set_q; exact H|].
+  destruct slot as [[s d]|]; [apply no_hold_close; exact H|exact H].
+Qed.
+
+Lemma no_hold_cons st s v : no_hold st -> hold_free v ->
+  no_hold (mkSt (s_q st) ((s, v) :: s_evs st) (s_nsid st) (s_script st)).
+Proof.
+  intros H Hv s'. cbn [s_evs evs_of]. destruct (Nat.eqb s s'); [exact Hv|exact (H s')].
+Qed.
+
+Lemma checkout_no_hold st : no_hold st -> no_hold (fst (checkout st)).
+Proof.
+  intros H. unfold checkout. destruct (s_q st) as [|[[s0 d0]|] q]; cbn [fst]; [exact H| |apply no_hold_set_q; exact H].
+  destruct (evs_of (s_evs st) s0) as [|[| | | |] ?]; cbn [fst];
+    try (apply no_hold_close); apply no_hold_set_q; exact H.
+Qed.
+
+Lemma acquire_clean st st2 s d :
+  no_hold st -> acquire st = (st2, s, d) -> evs_of (s_evs st2) s = [] /\ s_script st2 = s_script st /\ no_hold st2.
+Proof.
+  intros Hn. unfold acquire. destruct (checkout st) as [st1 slot] eqn:Hco.
+  pose proof (checkout_script st) as Hscr1. pose proof (checkout_no_hold st Hn) as Hn1. rewrite Hco in Hscr1, Hn1. cbn [fst] in *.
   destruct slot as [[s0 d0]|].
-  - intros H; inversion H; subst. split; [eapply checkout_clean; exact Hco|exact Hscr1].
-  - cbn [open_sock]. intros H; inversion H; subst. cbn [s_evs s_script]. split; [apply evs_head|exact Hscr1].
+  - intros H; inversion H; subst. split; [eapply checkout_clean; [exact Hn|exact Hco]|]. split; [exact Hscr1|exact Hn1].
+  - cbn [open_sock]. intros H; inversion H; subst. cbn [s_evs s_script]. split; [apply evs_head|]. split; [exact Hscr1|].
+    apply (no_hold_cons st1 (s_nsid st1) [] Hn1 hold_free_nil).
 Qed.
 
 Lemma apply_after_script M st s a : s_script (apply_after M st s a) = s_script st.
@@ -253,7 +395,8 @@ Proof. destruct a; cbn [apply_after]; rewrite ?put_script; reflexivity. Qed.
 Lemma attempt_script M st2 s d i rq r0 more : s_script (fst (attempt M st2 s d i rq r0 more)) = more.
 Proof.
   unfold Wire.attempt. destruct d; [cbn [fst]; rewrite put_script; reflexivity|].
-  match goal with |- context[match ?e with _ => _ end] => destruct e as [|[t r| | |] rest] end;
+  cbn [s_evs]. rewrite evs_head.
+  destruct (unhold (evs_of (s_evs st2) s) ++ serve i (q_head rq) r0) as [|[t r|t c|t| |] rest];
     try (cbn [fst]; rewrite put_script; reflexivity).
   destruct (q_preload rq).
   - destruct (to_end _ _ _ _ _) as [[d0 err] it]. destruct err; cbn [fst]; [rewrite put_script|rewrite apply_after_script]; reflexivity.
@@ -265,10 +408,10 @@ Lemma attempt_own M st2 s d i rq r0 more st4 res :
   attempt M st2 s d i rq r0 more = (st4, Some res) -> result_ok (r0 :: more) i rq res.
 Proof.
   intros Hclean. unfold Wire.attempt. destruct d; [discriminate|].
-  cbn [s_evs]. rewrite evs_head, Hclean. cbn [app].
+  cbn [s_evs]. rewrite evs_head, Hclean. cbn [unhold app].
   destruct (Nat.eq_dec (k_kind r0) 1) as [K1|K1]; [unfold serve; rewrite K1; discriminate|].
   destruct (Nat.eq_dec (k_kind r0) 2) as [K2|K2]; [unfold serve; rewrite K2; discriminate|].
-  destruct (serve_shape i (q_head rq) r0 K1 K2) as (tl & -> & Hshape).
+  destruct (serve_shape i (q_head rq) r0 K1 K2) as (tl & -> & Hshape & _).
   rewrite bodyless_norm.
   assert (Hsn : bodyless (q_head rq) r0 = false -> k_sent (norm (q_head rq) r0) <= k_n (norm (q_head rq) r0))
     by (intros Hb; destruct (Hshape Hb) as (? & _ & _ & H & _); exact H).
@@ -287,19 +430,6 @@ Proof.
     intros H; inversion H; subst. apply Hfin; exact Hb.
 Qed.
 
-Theorem urlopen_own fuel : forall M st i rq last,
-  result_ok (s_script st) i rq (snd (urlopen fuel M st i rq last)).
-Proof.
-  induction fuel as [|fuel IH]; intros M st i rq last; cbn [urlopen].
-  all: destruct (acquire st) as [[st2 s] d] eqn:Ha; apply acquire_clean in Ha as [Hclean Hscr]; rewrite <- Hscr.
-  all: destruct (s_script st2) as [|r0 more]; [cbn [snd r_delivered]; split; [constructor|left; reflexivity]|].
-  all: destruct (attempt M st2 s d i rq r0 more) as [st4 [res|]] eqn:Hat.
-  all: try (cbn [snd]; eapply attempt_own; [exact Hclean|exact Hat]).
-  - cbn [snd]. split; [constructor|left; reflexivity].
-  - apply result_ok_more. pose proof (attempt_script M st2 s d i rq r0 more) as Hs. rewrite Hat in Hs. cbn [fst] in Hs.
-    rewrite <- Hs. apply IH.
-Qed.
-
 (* every request of a history *)
 Fixpoint all_ok (script : list reply) (i : nat) (reqs : list request) (rs : list result) : Prop :=
   match reqs, rs with
@@ -308,18 +438,6 @@ Fixpoint all_ok (script : list reply) (i : nat) (reqs : list request) (rs : list
   | [], _ :: _ => False
   end.
 
-Lemma urlopen_script_suffix fuel : forall M st i rq last,
-  exists used, s_script st = used ++ s_script (fst (urlopen fuel M st i rq last)).
-Proof.
-  induction fuel as [|fuel IH]; intros M st i rq last; cbn [urlopen].
-  all: destruct (acquire st) as [[st2 s] d] eqn:Ha; apply acquire_clean in Ha as [Hclean Hscr]; rewrite <- Hscr.
-  all: destruct (s_script st2) as [|r0 more] eqn:Hs2; [exists []; cbn [fst app]; symmetry; exact Hs2|].
-  all: pose proof (attempt_script M st2 s d i rq r0 more) as Hs.
-  all: destruct (attempt M st2 s d i rq r0 more) as [st4 [res|]]; cbn [fst] in *.
-  all: try (exists [r0]; cbn [app]; rewrite Hs; reflexivity).
-  destruct (IH M st4 i rq (Some s)) as [used Hu]. exists (r0 :: used). cbn [app]. rewrite <- Hu, Hs. reflexivity.
-Qed.
-
 Lemma result_ok_app used script i rq res : result_ok script i rq res -> result_ok (used ++ script) i rq res.
 Proof. induction used as [|u used IH]; intros H; [exact H|]. cbn [app]. apply result_ok_more, IH, H. Qed.
 
@@ -327,17 +445,6 @@ Lemma all_ok_app used : forall script i reqs rs, all_ok script i reqs rs -> all_
 Proof.
   intros script i reqs rs; revert i reqs. induction rs as [|r rs IH]; intros i reqs H; destruct reqs as [|rq reqs]; cbn [all_ok] in *; try exact H.
   destruct H as [H1 H2]. split; [apply result_ok_app; exact H1|apply IH; exact H2].
-Qed.
-
-Theorem history_own fuel M : forall reqs st i, all_ok (s_script st) i reqs (run_history fuel M st i reqs).
-Proof.
-  induction reqs as [|rq reqs IH]; intros st i; cbn [run_history all_ok]; [exact I|].
-  pose proof (urlopen_own fuel M st i rq None) as Hok.
-  destruct (urlopen_script_suffix fuel M st i rq None) as [used Hu].
-  destruct (urlopen fuel M st i rq None) as [st1 res]; cbn [snd fst] in *.
-  cbn [all_ok]. split; [exact Hok|].
-  destruct (r_outcome res); try (rewrite Hu; apply all_ok_app; apply IH).
-  destruct reqs; exact I.
 Qed.
 
 (* ---------- connections that are not clean never yield a response ---------- *)
@@ -364,12 +471,225 @@ Proof.
   { intros st4' H; inversion H; subst st4'. unfold put. cbn [close_sock s_q st3].
     apply Nat.ltb_lt in Hlen. rewrite Hlen. unfold acquire, checkout. cbn [set_q s_q s_evs s_nsid s_script open_sock fst]. split; reflexivity. }
   destruct d; [apply Hf|].
-  match goal with |- context[match ?e with _ => _ end] => destruct e as [|[t r| | |] rest] end; try apply Hf.
+  destruct (evs_of (s_evs st3) s) as [|[t r|t c|t| |] rest]; try apply Hf.
   destruct (q_preload rq).
   - destruct (to_end _ _ _ _ _) as [[d0 err] it]. destruct err; [apply Hf|discriminate].
   - destruct (respond _ _ _ _ _) as [[d0 err] a]. discriminate.
 Qed.
 End Release.
+
+(* ---------- late bodies: nothing held back ever sits on a pooled socket (release_conn() as fixed: rc = true) ---------- *)
+Lemma hold_free_suffix pre it : hold_free (pre ++ it) -> hold_free it.
+Proof. intros H Hin. apply H. apply in_or_app. right; exact Hin. Qed.
+
+Lemma pull_suffix : forall items need have, exists pre, items = pre ++ snd (fst (pull need have items)).
+Proof.
+  induction items as [|x items IH]; intros need have; rewrite pull_unfold.
+  - destruct (Nat.leb need have); exists []; reflexivity.
+  - destruct (Nat.leb need have); [exists []; reflexivity|].
+    destruct x as [t r|t c|t| |]; try (exists []; reflexivity).
+    + destruct (IH need (have + 1)) as [pre Hp]. destruct (pull need (have + 1) items) as [[[ch h] it] e]. cbn [fst snd] in *.
+      exists (IResp t r :: pre). cbn [app]. rewrite <- Hp. reflexivity.
+    + destruct (IH need (have + c)) as [pre Hp]. destruct (pull need (have + c) items) as [[[ch h] it] e]. cbn [fst snd] in *.
+      exists (IData t c :: pre). cbn [app]. rewrite <- Hp. reflexivity.
+    + destruct (IH need (have + 1)) as [pre Hp]. destruct (pull need (have + 1) items) as [[[ch h] it] e]. cbn [fst snd] in *.
+      exists (IJunk t :: pre). cbn [app]. rewrite <- Hp. reflexivity.
+Qed.
+
+Lemma pull_eof_suffix : forall items, exists pre, items = pre ++ snd (pull_eof items).
+Proof.
+  induction items as [|x items IH]; [exists []; reflexivity|].
+  destruct x as [t r|t c|t| |]; cbn [pull_eof]; try (exists []; reflexivity).
+  all: destruct IH as [pre Hp]; destruct (pull_eof items) as [ch it]; cbn [snd] in *.
+  - exists (IResp t r :: pre). cbn [app]. rewrite <- Hp. reflexivity.
+  - exists (IData t c :: pre). cbn [app]. rewrite <- Hp. reflexivity.
+  - exists (IJunk t :: pre). cbn [app]. rewrite <- Hp. reflexivity.
+Qed.
+
+Lemma to_end_hold_free t r bl rest amt : hold_free rest -> hold_free (snd (to_end t r bl rest amt)).
+Proof.
+  intros H. unfold to_end. destruct bl; [exact H|].
+  destruct (k_framing r).
+  - destruct (pull_suffix rest (k_n r) (k_first r)) as [pre Hp].
+    destruct (pull (k_n r) (k_first r) rest) as [[[ch have] it] short]. cbn [fst snd] in Hp.
+    assert (Hit : hold_free it) by (rewrite Hp in H; exact (hold_free_suffix _ _ H)).
+    destruct short; [destruct amt|]; exact Hit.
+  - destruct (pull_eof_suffix rest) as [pre Hp]. destruct (pull_eof rest) as [ch it]. cbn [snd] in *.
+    rewrite Hp in H. exact (hold_free_suffix _ _ H).
+  - destruct (pull_suffix rest (k_n r) (k_first r)) as [pre Hp].
+    destruct (pull (k_n r) (k_first r) rest) as [[[ch have] it] short]. cbn [fst snd] in Hp.
+    assert (Hit : hold_free it) by (rewrite Hp in H; exact (hold_free_suffix _ _ H)).
+    destruct short; [destruct amt|]; exact Hit.
+Qed.
+
+Lemma fin_put keep it it' dirty : fin keep it = APut it' dirty -> it' = it.
+Proof. unfold fin. destruct keep; intros H; inversion H; reflexivity. Qed.
+Lemma released_put rc keep it it' dirty : released_unread rc keep it = APut it' dirty -> it' = it.
+Proof. unfold released_unread. destruct rc; [discriminate|apply fin_put]. Qed.
+
+Lemma respond_hold_free rc i r bl tl c d err it dirty :
+  hold_free tl -> Wire.respond rc i r bl tl c = (d, err, APut it dirty) -> hold_free it.
+Proof.
+  intros Hf. unfold Wire.respond. destruct c as [|k| | | | |a|k1].
+  - pose proof (to_end_hold_free i r bl tl None Hf) as Ht. destruct (to_end i r bl tl None) as [[d0 e0] it0]. cbn [snd] in Ht.
+    destruct e0; [discriminate|]. intros H; inversion H as [[Hd He Ha]]. apply fin_put in Ha. subst. exact Ht.
+  - destruct (bl || Nat.leb (k_n r) k && negb (match k_framing r with FEof => true | _ => false end)).
+    + pose proof (to_end_hold_free i r bl tl None Hf) as Ht. destruct (to_end i r bl tl None) as [[d0 e0] it0]. cbn [snd] in Ht.
+      destruct e0; [discriminate|]. destruct (read_to_end r bl k); intros H; inversion H as [[Hd He Ha]];
+        [apply fin_put in Ha|apply released_put in Ha]; subst; exact Ht.
+    + destruct (pull_suffix tl k (k_first r)) as [pre Hp].
+      destruct (pull k (k_first r) tl) as [[[ch have] it0] short]. cbn [fst snd] in Hp.
+      assert (Hit : hold_free it0) by (rewrite Hp in Hf; exact (hold_free_suffix _ _ Hf)).
+      destruct (k_framing r); [destruct short| |destruct short]; try discriminate;
+        intros H; inversion H as [[Hd He Ha]]; apply released_put in Ha; subst; exact Hit.
+  - destruct (nothing_to_read r bl); intros H; inversion H as [[Hd He Ha]]; [apply fin_put in Ha|apply released_put in Ha]; subst; exact Hf.
+  - destruct (rc && negb (nothing_to_read r bl)); [discriminate|]. destruct (k_keep r); [|discriminate].
+    intros H; inversion H; subst. exact Hf.
+  - pose proof (to_end_hold_free i r bl tl None Hf) as Ht. destruct (to_end i r bl tl None) as [[d0 e0] it0]. cbn [snd] in Ht.
+    destruct e0; [discriminate|]. intros H; inversion H as [[Hd He Ha]]. apply fin_put in Ha. subst. exact Ht.
+  - discriminate.
+  - pose proof (to_end_hold_free i r bl tl (Some (Nat.max a 1)) Hf) as Ht. destruct (to_end i r bl tl (Some (Nat.max a 1))) as [[d0 e0] it0]. cbn [snd] in Ht.
+    destruct e0; [discriminate|]. intros H; inversion H as [[Hd He Ha]]. apply fin_put in Ha. subst. exact Ht.
+  - destruct bl; [intros H; inversion H as [[Hd He Ha]]; apply fin_put in Ha; subst; exact Hf|].
+    destruct (Nat.ltb 0 (k_first r)).
+    + destruct (Nat.eqb _ (k_n r)); [|discriminate]. intros H; inversion H as [[Hd He Ha]]. apply fin_put in Ha. subst. exact Hf.
+    + destruct (k_n r) as [|n']; [intros H; inversion H as [[Hd He Ha]]; apply fin_put in Ha; subst; exact Hf|].
+      destruct tl as [|[t' r'|t' c|t'| |] more]; try discriminate.
+      destruct (Nat.eqb _ _); [|discriminate]. intros H; inversion H as [[Hd He Ha]]. apply fin_put in Ha. subst.
+      assert (Hm : hold_free more) by (intros Hin; apply Hf; right; exact Hin).
+      destruct (k_stray r); try exact Hm. intros [Hx|Hx]; [discriminate|exact (Hm Hx)].
+Qed.
+
+(* a reply whose rest is held back: reading it to its end fails ... *)
+Lemma pull_late i r more need :
+  k_first r <= k_sent r -> k_sent r < need ->
+  snd (pull need (k_first r) (cont i r ++ IHold :: more)) = true.
+Proof.
+  intros Hfs Hn. unfold cont. destruct (Nat.ltb_spec (k_first r) (k_sent r)) as [Hlt|Hge]; cbn [app].
+  - rewrite pull_unfold. replace (Nat.leb need (k_first r)) with false by (symmetry; apply Nat.leb_gt; lia).
+    replace (k_first r + (k_sent r - k_first r)) with (k_sent r) by lia.
+    rewrite pull_unfold. replace (Nat.leb need (k_sent r)) with false by (symmetry; apply Nat.leb_gt; lia). reflexivity.
+  - rewrite pull_unfold. replace (Nat.leb need (k_first r)) with false by (symmetry; apply Nat.leb_gt; lia). reflexivity.
+Qed.
+
+Lemma to_end_late i r tl amt : late_tail i r tl -> snd (fst (to_end i r false tl amt)) = true.
+Proof.
+  intros (Hf & Hfs & Hsn & more & ->). unfold to_end. rewrite Hf.
+  pose proof (pull_late i r more (k_n r) Hfs Hsn) as Hp.
+  destruct (pull (k_n r) (k_first r) (cont i r ++ IHold :: more)) as [[[ch have] it] short]. cbn [snd] in Hp. subst short.
+  destruct amt; reflexivity.
+Qed.
+
+(* ... and no way of disposing of it sends the connection back to the pool open *)
+Lemma respond_late i r tl c d err a :
+  late_tail i r tl -> Wire.respond true i r false tl c = (d, err, a) -> forall it dirty, a <> APut it dirty.
+Proof.
+  intros Hl. pose proof Hl as (Hf & Hfs & Hsn & more & Htl). unfold Wire.respond, released_unread.
+  assert (Hend : forall amt d0 e0 it0, to_end i r false tl amt = (d0, e0, it0) -> e0 = true)
+    by (intros amt d0 e0 it0 H; pose proof (to_end_late i r tl amt Hl) as X; rewrite H in X; exact X).
+  destruct c as [|k| | | | |a0|k1]; cbn [orb].
+  - destruct (to_end i r false tl None) as [[d0 e0] it0] eqn:E. rewrite (Hend _ _ _ _ E). intros H; inversion H; discriminate.
+  - destruct (Nat.leb (k_n r) k && negb (match k_framing r with FEof => true | _ => false end)).
+    + destruct (to_end i r false tl None) as [[d0 e0] it0] eqn:E. rewrite (Hend _ _ _ _ E). intros H; inversion H; discriminate.
+    + destruct (pull k (k_first r) tl) as [[[ch have] it0] short]. rewrite Hf. destruct short; intros H; inversion H; discriminate.
+  - unfold nothing_to_read. rewrite Hf. cbn [orb]. replace (Nat.eqb (k_n r) 0) with false by (symmetry; apply Nat.eqb_neq; lia).
+    intros H; inversion H; discriminate.
+  - unfold nothing_to_read. rewrite Hf. cbn [orb]. replace (Nat.eqb (k_n r) 0) with false by (symmetry; apply Nat.eqb_neq; lia).
+    cbn [negb andb]. intros H; inversion H; discriminate.
+  - destruct (to_end i r false tl None) as [[d0 e0] it0] eqn:E. rewrite (Hend _ _ _ _ E). intros H; inversion H; discriminate.
+  - intros H; inversion H; discriminate.
+  - destruct (to_end i r false tl (Some (Nat.max a0 1))) as [[d0 e0] it0] eqn:E. rewrite (Hend _ _ _ _ E). intros H; inversion H; discriminate.
+  - destruct (Nat.ltb_spec 0 (k_first r)) as [Hpos|Hz].
+    + replace (Nat.eqb (Nat.min k1 (Nat.min (k_first r) (k_n r))) (k_n r)) with false by (symmetry; apply Nat.eqb_neq; lia).
+      intros H; inversion H; discriminate.
+    + destruct (k_n r) as [|n'] eqn:Hn; [lia|]. rewrite Htl. unfold cont.
+      destruct (Nat.ltb_spec (k_first r) (k_sent r)) as [Hlt|Hge]; cbn [app].
+      * replace (Nat.eqb (Nat.min k1 (Nat.min (k_sent r - k_first r) (S n'))) (S n')) with false by (symmetry; apply Nat.eqb_neq; lia).
+        intros H; inversion H; discriminate.
+      * intros H; inversion H; discriminate.
+Qed.
+
+Lemma apply_after_no_hold M st s a :
+  no_hold st -> (forall it dirty, a = APut it dirty -> hold_free it) -> no_hold (apply_after M st s a).
+Proof.
+  intros Hn Ha. destruct a as [it dirty| |]; cbn [apply_after].
+  - apply no_hold_put. unfold set_evs. apply no_hold_cons; [exact Hn|]. exact (Ha it dirty eq_refl).
+  - apply no_hold_put, no_hold_close, Hn.
+  - apply no_hold_close, Hn.
+Qed.
+
+Lemma attempt_no_hold M st2 s d i rq r0 more :
+  no_hold st2 -> evs_of (s_evs st2) s = [] -> no_hold (fst (Wire.attempt true M st2 s d i rq r0 more)).
+Proof.
+  intros Hn Hclean. unfold Wire.attempt.
+  set (st3 := mkSt (s_q st2) _ (s_nsid st2) more).
+  (* whatever the server wrote, closing the socket removes it *)
+  assert (Hfail : no_hold (put M (close_sock st3 s) None)).
+  { apply no_hold_put. intros s'. cbn [close_sock s_evs st3]. destruct (Nat.eq_dec s s') as [->|Hne].
+    - rewrite evs_of_closed. apply hold_free_nil.
+    - rewrite evs_of_filter_other by exact Hne. cbn [evs_of]. destruct (Nat.eqb_spec s s'); [contradiction|exact (Hn s')]. }
+  destruct d; [exact Hfail|].
+  cbn [s_evs st3]. rewrite evs_head, Hclean. cbn [unhold app].
+  destruct (Nat.eq_dec (k_kind r0) 1) as [K1|K1]; [unfold serve; rewrite K1; exact Hfail|].
+  destruct (Nat.eq_dec (k_kind r0) 2) as [K2|K2]; [unfold serve; rewrite K2; exact Hfail|].
+  destruct (serve_shape i (q_head rq) r0 K1 K2) as (tl & Hserve & Hshape & Hlate). rewrite Hserve. rewrite bodyless_norm.
+  (* after the exchange only what the caller's disposal leaves on the socket counts *)
+  assert (Hafter : forall a, (forall it dirty, a = APut it dirty -> hold_free it) -> no_hold (apply_after M st3 s a)).
+  { intros a Ha. destruct a as [it dirty| |]; cbn [apply_after].
+    - apply no_hold_put. intros s'. cbn [set_evs s_evs st3 evs_of]. destruct (Nat.eqb_spec s s'); [exact (Ha it dirty eq_refl)|exact (Hn s')].
+    - apply no_hold_put. intros s'. cbn [close_sock s_evs st3]. destruct (Nat.eq_dec s s') as [->|Hne].
+      + rewrite evs_of_closed. apply hold_free_nil.
+      + rewrite evs_of_filter_other by exact Hne. cbn [evs_of]. destruct (Nat.eqb_spec s s'); [contradiction|exact (Hn s')].
+    - intros s'. cbn [close_sock s_evs st3]. destruct (Nat.eq_dec s s') as [->|Hne].
+      + rewrite evs_of_closed. apply hold_free_nil.
+      + rewrite evs_of_filter_other by exact Hne. cbn [evs_of]. destruct (Nat.eqb_spec s s'); [contradiction|exact (Hn s')]. }
+  destruct (classic_in_hold tl) as [Hin|Hfree].
+  - (* the rest of this reply is held back *)
+    destruct (Hlate Hin) as [Hb Hl]. rewrite Hb.
+    destruct (q_preload rq).
+    + pose proof (to_end_late i (norm (q_head rq) r0) tl None Hl) as He.
+      destruct (to_end _ _ _ _ _) as [[d0 err] it]. cbn [fst snd] in He. subst err. exact Hfail.
+    + destruct (Wire.respond true i (norm (q_head rq) r0) false tl (q_caller rq)) as [[d0 err] a] eqn:Er. cbn [fst].
+      apply Hafter. intros it dirty Ha. exfalso. exact (respond_late _ _ _ _ _ _ _ Hl Er it dirty Ha).
+  - destruct (q_preload rq).
+    + pose proof (to_end_hold_free i (norm (q_head rq) r0) (bodyless (q_head rq) r0) tl None Hfree) as Ht.
+      destruct (to_end _ _ _ _ _) as [[d0 err] it]. cbn [snd] in Ht. destruct err; [exact Hfail|]. cbn [fst].
+      apply Hafter. intros it' dirty Ha. apply fin_put in Ha. subst. exact Ht.
+    + destruct (Wire.respond true i (norm (q_head rq) r0) (bodyless (q_head rq) r0) tl (q_caller rq)) as [[d0 err] a] eqn:Er. cbn [fst].
+      apply Hafter. intros it dirty Ha. subst a. exact (respond_hold_free _ _ _ _ _ _ _ _ _ _ Hfree Er).
+Qed.
+
+(* one urlopen call: its result is the request's own, the script shrinks, nothing is held back afterwards *)
+Theorem urlopen_own fuel : forall M st i rq last, no_hold st ->
+  result_ok (s_script st) i rq (snd (Wire.urlopen true fuel M st i rq last)) /\
+  no_hold (fst (Wire.urlopen true fuel M st i rq last)) /\
+  exists used, s_script st = used ++ s_script (fst (Wire.urlopen true fuel M st i rq last)).
+Proof.
+  induction fuel as [|fuel IH]; intros M st i rq last Hn; cbn [Wire.urlopen].
+  all: destruct (acquire st) as [[st2 s] d] eqn:Ha; apply (acquire_clean st st2 s d Hn) in Ha as (Hclean & Hscr & Hn2); rewrite <- Hscr.
+  all: destruct (s_script st2) as [|r0 more] eqn:Hs2;
+    [cbn [snd fst r_delivered]; split; [split; [constructor|left; reflexivity]|]; split; [exact Hn2|exists []; symmetry; exact Hs2]|].
+  all: pose proof (attempt_script true M st2 s d i rq r0 more) as Hs.
+  all: pose proof (attempt_no_hold M st2 s d i rq r0 more Hn2 Hclean) as Hn4.
+  all: destruct (Wire.attempt true M st2 s d i rq r0 more) as [st4 [res|]] eqn:Hat; cbn [fst snd] in *.
+  all: try (split; [eapply attempt_own; [exact Hclean|exact Hat]|]; split; [exact Hn4|exists [r0]; cbn [app]; rewrite Hs; reflexivity]).
+  - split; [split; [constructor|left; reflexivity]|]. split; [exact Hn4|exists [r0]; cbn [app]; rewrite Hs; reflexivity].
+  - destruct (IH M st4 i rq (Some s) Hn4) as (Hok & Hn5 & used & Hu). rewrite Hs in Hok, Hu.
+    split; [apply result_ok_more; exact Hok|]. split; [exact Hn5|]. exists (r0 :: used). cbn [app]. rewrite <- Hu. reflexivity.
+Qed.
+
+Theorem history_own fuel M : forall reqs st i, no_hold st -> all_ok (s_script st) i reqs (Wire.run_history true fuel M st i reqs).
+Proof.
+  induction reqs as [|rq reqs IH]; intros st i Hn; cbn [Wire.run_history all_ok]; [exact I|].
+  destruct (urlopen_own fuel M st i rq None Hn) as (Hok & Hn1 & used & Hu).
+  destruct (Wire.urlopen true fuel M st i rq None) as [st1 res]; cbn [snd fst] in *.
+  cbn [all_ok]. split; [exact Hok|].
+  destruct (r_outcome res); try (rewrite Hu; apply all_ok_app; apply IH; exact Hn1).
+  destruct reqs; exact I.
+Qed.
+
+Lemma init_no_hold M script : no_hold (init M script).
+Proof. intros s. cbn. apply hold_free_nil. Qed.
 
 (* with release_conn() closing what was not read to its end (rc = true): a response released unread or after a partial
    read(k) never sends its connection back to the pool open - unless there was nothing to read *)
